@@ -69,3 +69,7 @@ def run(ctx):
     hists, execs, traces = sm.run_property(ctx, "C19", ["no_logout_when_established"], extras(ctx))
     ctx.rule = ("transition cover of the session design (%d histories) + seeded inbound sequences incl. CompIDs containing '34=', "
                 "replayed on the real session; distinct = distinct call sequences" % len(hists))
+
+
+def replay(ctx, doc):
+    sc.replay_case(ctx, doc)
